@@ -157,6 +157,29 @@ def thr_agree_term(case, thr_list, tol, fuzzy, method=None):
     return f"(let s := {s} in " + " && ".join(parts) + ")"
 
 
+F_METRIC = {"tpr": "FTpr", "fnr": "FFnr", "tnr": "FTnr", "fpr": "FFpr", "topr": "FTopr", "tonr": "FTonr"}
+F_METHOD = {"linear": "FLinear", "lower": "FLower", "higher": "FHigher"}
+
+
+def float_agree_term(case, thr_list, method=None, raised=False):
+    """Coq bool over Model/FloatThreshold.v (binary64, operation by operation): the float model returns exactly the
+    doubles the implementation returned, for every target; works on every input (no exactness condition)"""
+    import math
+    pos = sorted(fl(x) for x in case["pos"])
+    neg = sorted(fl(x) for x in case["neg"])
+    lab = {"pos": "FloatThreshold.FPos", "neg": "FloatThreshold.FNeg"}
+    s = (f"(FloatThreshold.mkF {cq.f64list(pos)} {cq.f64list(neg)} {cq.z(case['ep'])} {cq.z(case['en'])} "
+         f"{lab[case['sc']]} {lab[case['ec']]})")
+    pairs = []
+    for r, t in zip(case["targets"], thr_list if not raised else [None] * len(case["targets"])):
+        exp = "None" if raised else f"(Some {cq.f64(fl(t))})"
+        if not raised and not math.isfinite(fl(t)):
+            return None
+        pairs.append(f"({cq.f64(fl(r))}, {exp})")
+    return (f"(FloatThreshold.fthr_check FloatThreshold.{F_METRIC[case['metric']]} {s} "
+            f"FloatThreshold.{F_METHOD[method or case['method']]} [{'; '.join(pairs)}])")
+
+
 def achievable(case):
     """(lowest, highest, one_sample) of the metric as exact fractions"""
     npos, nneg, ep, en = len(case["pos"]), len(case["neg"]), case["ep"], case["en"]
